@@ -1135,6 +1135,8 @@ class Executor(object):
             # the function under verification is executed (once); a recursive call uses its contract
             self.root_pending = False
             con = None
+        if con is not None and getattr(con, "inline_at_call_sites", False):
+            con = None          # a tiny function (constructor of an error): executed at its call sites, verified on its own too
         if con is not None:
             return self.apply_contract(con, fn, args, kwargs, st, fr)
         if fr.depth >= self.MAX_INLINE:
